@@ -17,8 +17,9 @@ import (
 
 func init() {
 	register(&Scenario{
-		Prop: "C37",
-		Run:  runC37,
+		Prop:    "C37",
+		Preempt: true,
+		Run:     runC37,
 		Real: []string{
 			"ingest.NewWorldFromSource / BasicWorldBuilder.Finish (validate and index stages, cores 1-8) and compact.BuildInMemory with its Validator queue (goroutines 1-3), FailInvalidFeatures=false, all under the simulated scheduler",
 			"BasicMutableWorld and MutableOverlayWorld edit histories including rejected edits",
